@@ -94,6 +94,11 @@ def decide(mod, qualname):
                     return Lin(0, 1, case)
                 if isinstance(l, Operand) and isinstance(r, Operand) and l.name == "a" and r.name == "b":
                     return Lin(0, 1, case) if agree else Lin(-case["e"], -1, case)
+                # mixed forms: floor(|a| / b) and floor(a / |b|) floor toward -inf when exactly one side is negative
+                if isinstance(l, AbsOperand) and isinstance(r, Operand) and l.op.name == "a" and r.name == "b":
+                    return Lin(0, 1, case) if case["sb"] == "+" else Lin(-case["e"], -1, case)
+                if isinstance(l, Operand) and isinstance(r, AbsOperand) and l.name == "a" and r.op.name == "b":
+                    return Lin(0, 1, case) if case["sa"] in "+0" else Lin(-case["e"], -1, case)
             if isinstance(l, Lin) and isinstance(r, int):
                 if op == "Add":
                     return Lin(l.c0 + r, l.c1, case)
